@@ -94,6 +94,7 @@ var Registry = map[string]func(c *Ctx, arg string) error{
 			return nil
 		}
 		RunSubmitScenarios(c)
+		RunSubmitCrashEnum(c)
 		return nil
 	},
 	"queue": func(c *Ctx, arg string) error {
